@@ -149,6 +149,9 @@ INJECT = [
     ("kani/root.rs", "src/lib.rs", "verif_kani_root", ("kani",)),
     ("native/merge.rs", "src/engine/operators/merge.rs", "verif_nat_merge", ("native",)),
     ("native/merge_keep.rs", "src/engine/operators/merge_keep.rs", "verif_nat_merge_keep", ("native",)),
+    ("native/merge_deduplicate.rs", "src/engine/operators/merge_deduplicate.rs", "verif_nat_merge_deduplicate", ("native",)),
+    ("native/merge_aggregate.rs", "src/engine/operators/merge_aggregate.rs", "verif_nat_merge_aggregate", ("native",)),
+    ("native/merge_drop.rs", "src/engine/operators/merge_drop.rs", "verif_nat_merge_drop", ("native",)),
 ]
 
 
